@@ -33,9 +33,11 @@ class ExprMixin:
         if self.cur is not None and self.cur[0].expr_rules and not isinstance(node, (ast.Name, ast.Constant)):
             r = self.cur[0].expr_rules.get(ast.unparse(node))
             if r is not None:
-                self.note('rule', (getattr(node, 'lineno', 0), ast.unparse(node)[:70], 'expression rule: ' + str(r)))
+                self.note('rule', (getattr(node, 'lineno', 0), ast.unparse(node)[:70], 'expression rule: ' + (getattr(r, '__name__', None) or str(r))))
                 from .vals import parse_type
                 out = []
+                if callable(r):                    # handler(E, st, node, args, kws, k): an assumed contract written in Python
+                    return r(self, st, node, [], {}, k)
                 if isinstance(r, dict):            # {'type': T, 'raises': [...]}: any value of T, or one of the exceptions
                     for exc in r.get('raises', []):
                         s2 = st.copy()
@@ -642,8 +644,19 @@ class ExprMixin:
         raise Unsupported("set display")
 
     def ev_JoinedStr(self, node, st, k):
-        self.note('rule', (node.lineno, ast.unparse(node)[:60], 'f-string -> opaque string'))
-        return k(st, fresh_val(T_STR, 'fstr', st))
+        # the embedded expressions are evaluated (they may raise, e.g. ``f"{'-'.join(parts)}"`` for parts = None); the text
+        # itself is an opaque string (formatting str / int / list values raises nothing)
+        inner = [v.value for v in node.values if isinstance(v, ast.FormattedValue)]
+        box = []
+        try:
+            out = self.ev_list(inner, st.copy(), lambda s, vs: box.append(s) or [])
+        except Unsupported as e:
+            self.note('rule', (node.lineno, ast.unparse(node)[:60], 'f-string -> opaque string (embedded expressions NOT evaluated: %s)' % str(e)[:60]))
+            return k(st, fresh_val(T_STR, 'fstr', st))
+        self.note('rule', (node.lineno, ast.unparse(node)[:60], 'f-string -> opaque string (embedded expressions evaluated)'))
+        for s in box:
+            out = out + k(s, fresh_val(T_STR, 'fstr', s))
+        return out
 
     def ev_Lambda(self, node, st, k):
         return k(st, VFunc('lambda', node=node, fid=st.fid))
